@@ -152,9 +152,13 @@ def r1_lock(prog, rep: Report, sf: StorageFacts):
     rep.rule("C14.R1", "writes under the lock: every write to shared state (manager lists, shared counters) and every test "
              "of shared state in a function that also writes it lies inside a `with <lock>` region (helpers inlined)",
              floor=3)
+    called_inside = {c.func.attr for g in sf.cls.methods.values() if g.self_name is not None for c in calls_in(g.node)
+                     if isinstance(c.func, ast.Attribute) and isinstance(c.func.value, ast.Name) and c.func.value.id == g.self_name}
     for name, f in sf.cls.methods.items():
         if name == "__init__" or f.self_name is None:
             continue
+        if name.startswith("_") and not name.startswith("__") and name in called_inside:
+            continue        # a private helper: analysed where it is called (inlined), with the caller's lock state
         client = _LockRegions(sf)
         it = Interp(prog, client)
         it.run(f, {0}, sf.cls)
@@ -319,7 +323,8 @@ def r2_r3_r6(prog, rep: Report, sf: StorageFacts):
         rep.check(rule, f, role, not mine, "holds on every path of __setitem__ (helpers inlined)",
                   "; ".join(m for _, _, m in mine), scenario=scen, line=mine[0][0] if mine else None)
     # cursor advance loop guarded by "entry at cursor is not None"
-    loops = [n for n in walk_own(f.node) if isinstance(n, ast.While)]
+    fv = prog.method_view(sf.cls, "__setitem__")      # private helpers inlined (sa/inline.py)
+    loops = [n for n in walk_own(fv.node) if isinstance(n, ast.While)]
     good = False
     for lp in loops:
         advances = any(isinstance(s, ast.AugAssign) and dotted(s.target) == (f.self_name, sf.cursor, "value") for s in lp.body)
@@ -477,8 +482,10 @@ class _Reader(Client):
         self.reads = 0
         self.entry_vars: Set[str] = set()
         for n in walk_own(f.node):
-            if isinstance(n, ast.Assign) and isinstance(n.value, ast.Subscript) \
-                    and dotted(n.value.value) == (f.self_name, sf.index) and isinstance(n.targets[0], ast.Name):
+            if isinstance(n, ast.Assign) and isinstance(n.targets[0], ast.Name) \
+                    and any(isinstance(x, ast.Subscript) and dotted(x.value) == (f.self_name, sf.index) for x in ast.walk(n.value)) \
+                    and isinstance(n.value, (ast.Subscript, ast.IfExp)):
+                # entry = self.<index>[id]      or      entry = None if <out of range> else self.<index>[id]
                 self.entry_vars.add(n.targets[0].id)
 
     def should_inline(self, func, call, ctx):
@@ -557,8 +564,11 @@ def r7_reader(prog, rep: Report, sf: StorageFacts):
         pid, off = unpack
         seeks = [c for c in calls_in(f.node) if isinstance(c.func, ast.Attribute) and c.func.attr == "seek"]
         reads = [c for c in calls_in(f.node) if isinstance(c.func, ast.Attribute) and c.func.attr == "readline"]
-        good = bool(seeks) and all(len(c.args) == 1 and src(c.args[0]) == off and f"[{pid}]" in src(c.func.value) for c in seeks) \
-            and all(f"[{pid}]" in src(c.func.value) for c in reads)
+        def handle_of(c):
+            # the receiver, with a local alias of the selected handle expanded (`h = self.<cache>[pid]; h.seek(off)`)
+            return src(flow.expand(c.func.value))
+        good = bool(seeks) and all(len(c.args) == 1 and src(flow.expand(c.args[0])) == off and f"[{pid}]" in handle_of(c) for c in seeks) \
+            and all(f"[{pid}]" in handle_of(c) for c in reads)
     rep.check("C14.R7", f, "offset-roles", good, "seek(offset) on the handle of the recorded writer",
               "the seek does not use the (writer, offset) components of the index entry in their roles",
               scenario="the reader seeks with the writer id as offset or reads another writer's file: another id's text is returned")
